@@ -64,6 +64,12 @@ CHECKS = {
    note="Trusted: Coq kernel; hand models tied by exhaustive leaf enumeration (bounded depth/orbit length; quick: depth 2, thorough: depth 3). Assumed (interface to C02/C03/C08): a real integrator maps a state to the next orbit point exactly invertibly and fails symmetrically; uniform draws independent with P(U<p)=clip(p); momentum refreshment invariant. The statistics clause (n_step, accept_stat) is validated by the correspondence and a call-count oracle, not stated as a theorem. Multinomial sampling with a finite max_delta_h relative to the start energy is outside the property.",
    technique="Coq proof (induction on tree depth, expectation over decision trees) + exhaustive random-outcome enumeration correspondence + exact-kernel search",
    design="5/C01"),
+ "C12": dict(
+   cat="proof",
+   text="Coq theorems (no axioms) about exception-flow tables regenerated from src/mici/solvers.py, transitions.py and errors.py by translator T6 on every run, and about the common loop shape of the iterative solvers (Model/Faults.v): for EVERY fault schedule of the callbacks inside the loop (values, NaN-valued results, any exception at any call index) a solver returns only a converged iterate and otherwise raises ConvergenceError or an exception no handler class covers (solver_never_returns_unconverged), which with the generated handlers excludes ValueError and both LinAlgError classes (solver_no_foreign_exception, handlers_cover_faults: handlers, error hierarchy, `except IntegratorError` around every integrator.step call, statistics flags); unprotected_sites_listed pins the calls outside the protected regions. T6 also checks structurally that every return in a solver loop is guarded by the convergence test, that the NaN/divergence test and the final raise exist. Tie/search (fault enumeration): every user callback x sampled call index x fault kind (NaN, +-inf, ValueError, LinAlgError inside solves) x integrator/solver x transition type over 3-iteration chains on real code, plus the fixed-point solvers driven directly with scripted faults.",
+   note="Trusted: Coq kernel; translator T6 (structural, fail closed). The loop model abstracts one iteration's callbacks into one outcome. Transition-level containment (state finite, flags recorded, chain continues) is established by the fault grid, not by a theorem. Known findings G13a/G13b (non-finite constraint Jacobian -> mici LinAlgError; invalid metric value -> ValueError outside a solve) are re-observed and listed.",
+   technique="Coq proof over all fault schedules of a solver-loop model + tables regenerated from source (ast translator) + fault-injection grid on the real code",
+   design="5/C12"),
 }
 
 NOT_YET = "check not built yet in this round (design in DESIGN.md section 5); no claim is made"
